@@ -42,7 +42,19 @@ func runC11(e *Env) {
 		c11OwnMID(e)
 	}
 	if e.want("C11.R1") {
-		for _, q := range []string{"udp/client.Conn.doInternal", "tcp/client.Conn.doInternal", "udp/client.Conn.waitForAcknowledge"} {
+		// the wait for the acknowledgement, wherever it lives (own function or inlined into the writer)
+		for _, aw := range udpAckWaits(e) {
+			f := aw.root
+			rep := core.CallsNamed(f, "net/client.ReceivedMessageReader.TryToReplaceLoop")
+			ok := false
+			for _, c := range rep {
+				if core.Dominates(c.(ssa.Instruction), aw.w.Instr) {
+					ok = true
+				}
+			}
+			e.R.Check(ok, "C11.R1", core.FnName(f)+":replace-before-ack-wait", e.pos(aw.w.Instr), "TryToReplaceLoop dominates the blocking select", "the wait is reachable without asking for a replacement reader loop: called from a handler, the only reader would be the blocked caller itself")
+		}
+		for _, q := range []string{"udp/client.Conn.doInternal", "tcp/client.Conn.doInternal"} {
 			f := e.fn("C11.R1", q)
 			if f == nil {
 				continue
